@@ -964,3 +964,133 @@ func c03ResliceClears(c *Ctx, r *Report) {
 	}
 	r.Floor("R03.6b", "growths of a value slice within its capacity", n, 1)
 }
+
+// R05.14: end blocks run in the context of the end of the stream. put/filter
+// hands its runtime state the context that came with the end-of-stream marker
+// (final NR, FNR, FILENAME, FILENUM) before it runs the end blocks, on every
+// path — not only when no record was seen.
+func c05EndContext(c *Ctx, r *Report) {
+	r.Rule("R05.14", "end blocks run in the context of the end of the stream: in the verbs, every call of RootNode.ExecuteEndBlocks is dominated by a call of runtime.State.Update that no record-path call (ExecuteMainBlock) is dominated by — the state is brought up to the context carried by the end-of-stream marker on every path to the end blocks, or NR / FILENAME in an end block are those of the last record this put happened to receive")
+	n := 0
+	for _, fn := range c.ModuleFunctions() {
+		if fn.Pkg == nil || fn.Blocks == nil || !strings.Contains(fn.Pkg.Pkg.Path(), "/pkg/transformers") {
+			continue
+		}
+		var ends, mains, updates []*ssa.Call
+		for _, b := range fn.Blocks {
+			for _, in := range b.Instrs {
+				call, ok := in.(*ssa.Call)
+				if !ok {
+					continue
+				}
+				cn := CalleeName(&call.Call)
+				switch {
+				case strings.HasSuffix(cn, "RootNode.ExecuteEndBlocks"):
+					ends = append(ends, call)
+				case strings.HasSuffix(cn, "RootNode.ExecuteMainBlock"):
+					mains = append(mains, call)
+				case strings.HasSuffix(cn, "runtime.State.Update"):
+					updates = append(updates, call)
+				}
+			}
+		}
+		for i, e := range ends {
+			n++
+			key := fmt.Sprintf("%s: ExecuteEndBlocks #%d", SSAName(fn), i+1)
+			ok := false
+			for _, u := range updates {
+				dominatesEnd := u.Block() == e.Block() || u.Block().Dominates(e.Block())
+				if u.Block() == e.Block() {
+					// same block: the update must come first
+					for _, in := range u.Block().Instrs {
+						if in == ssa.Instruction(u) {
+							break
+						}
+						if in == ssa.Instruction(e) {
+							dominatesEnd = false
+						}
+					}
+				}
+				onRecordPath := false
+				for _, m := range mains {
+					if u.Block() == m.Block() || u.Block().Dominates(m.Block()) {
+						onRecordPath = true
+					}
+				}
+				if dominatesEnd && !onRecordPath {
+					ok = true
+				}
+			}
+			r.Check(ok, "R05.14", key, c.Rel(e.Pos()), "after an unconditional State.Update in the end-of-stream branch",
+				fmt.Sprintf("%s runs the end blocks on a path on which the runtime state has not been updated with the end-of-stream context: NR, FNR, FILENAME and FILENUM in an end block are then those of the last record this verb received, not of the end of the input", SSAName(fn)))
+		}
+	}
+	r.Floor("R05.14", "calls of ExecuteEndBlocks in the verbs", n, 1)
+}
+
+// R05.15: file-name flags add to the list. --from, --mfrom, --files, --load
+// and --mload may be repeated and mixed; each adds to what is there.
+func c05FileNameFlagsAppend(c *Ctx, r *Report) {
+	r.Rule("R05.15", "file-name flags add to the list: in package cli (the flag table's closures), every store to the options' FileNames or DSLPreloadFileNames field stores append(…) of a list that starts from the field's own present value — a flag that assigns a list it collected on the side drops the files named by the flags before it (--from a --mfrom b c --)")
+	n := 0
+	for _, fn := range c.ModuleFunctions() {
+		if fn.Pkg == nil || fn.Blocks == nil || !strings.HasSuffix(fn.Pkg.Pkg.Path(), "/pkg/cli") {
+			continue
+		}
+		k := 0
+		for _, b := range fn.Blocks {
+			for _, in := range b.Instrs {
+				st, ok := in.(*ssa.Store)
+				if !ok {
+					continue
+				}
+				base, fname, ok := fieldAddrName(st.Addr)
+				if !ok || (fname != "FileNames" && fname != "DSLPreloadFileNames") {
+					continue
+				}
+				// the options handed to a flag parser, not a struct under construction
+				if _, isParam := base.(*ssa.Parameter); !isParam {
+					continue
+				}
+				n++
+				k++
+				key := fmt.Sprintf("%s: store to %s #%d", flagClosureName(c, fn), fname, k)
+				var fromField func(v ssa.Value, depth int) bool
+				fromField = func(v ssa.Value, depth int) bool {
+					if depth > 8 {
+						return false
+					}
+					switch x := v.(type) {
+					case *ssa.Call:
+						if bi, ok := x.Call.Value.(*ssa.Builtin); ok && bi.Name() == "append" {
+							return fromField(x.Call.Args[0], depth+1)
+						}
+					case *ssa.Phi:
+						for _, e := range x.Edges {
+							if e == v {
+								continue
+							}
+							if !fromField(e, depth+1) {
+								return false
+							}
+						}
+						return len(x.Edges) > 0
+					case *ssa.UnOp:
+						_, name, ok := fieldLoadName(x)
+						return ok && name == fname
+					}
+					return false
+				}
+				isAppend := false
+				if call, ok := st.Val.(*ssa.Call); ok {
+					if bi, ok := call.Call.Value.(*ssa.Builtin); ok && bi.Name() == "append" {
+						isAppend = true
+					}
+				}
+				r.Check(isAppend && fromField(st.Val, 0), "R05.15", key, c.Rel(st.Pos()), "append onto the field's present value",
+					fmt.Sprintf("%s assigns %s a list that does not start from the field's present value: the names put there by earlier flags on the same command line are dropped", SSAName(fn), fname))
+			}
+		}
+	}
+	r.Floor("R05.15", "stores to the file-name lists in package cli", n, 5)
+}
